@@ -46,7 +46,7 @@ def make_page(np, layout, bxs, slanted=False):
         nl = 1 + (k % 2)
         for j in range(nl):
             yb = y0 + 10 + 12 * j
-            dy = 6.0 if slanted else 0.0
+            dy = {False: 0.0, True: 6.0}.get(slanted, slanted)      # rise of the line over its width: none / clearly slanted / a fraction of a pixel
             reg.lines.append(layout.TextLine(id='r%02d-l%d' % (k, j), baseline=np.array([[x0 + 2, yb], [x1 - 2 if x1 > x0 + 4 else x0 + 30, yb + dy]], dtype=float),
                                              polygon=np.array([[x0 + 2, yb - 8], [x1 - 2, yb - 8 + dy], [x1 - 2, yb + 3 + dy], [x0 + 2, yb + 3]], dtype=float),
                                              heights=[8.0, 3.0], transcription='line %d %d' % (k, j), index=j))
@@ -148,9 +148,13 @@ def plans(thorough):
     hp = [((0, 0, 100, 100),) * 3, ((0, 0, 200, 200), (50, 50, 100, 100), (60, 60, 90, 90)), ((0, 0, 120, 120), (60, 60, 180, 180), (0, 100, 100, 200), (110, 0, 200, 70)),
           tuple((x, y, x + 40, y + 40) for x in (0, 50, 100) for y in (0, 50, 100)), ((0, 0, 40, 200), (50, 0, 90, 200), (100, 0, 140, 90), (100, 100, 140, 200))]
     for h in hp:
-        for sl in (False, True):
+        # no slant, a clear slant (6 px) and barely tilted lines (0.05 / 0.3 px over the line: a de-skew angle far below 0.1 degrees
+        # and just below 1 degree) — the de-skew rotation and its inverse must cancel for every angle
+        for sl in (False, True, 0.05, 0.3):
             for ip in (0.1, 0.5):
                 out.append((h, sl, ip))
+    for a, b in pairs[::(11 if thorough else 53)]:
+        out.append(((a, b), 0.05, 0.1))
     return out
 
 
